@@ -273,6 +273,42 @@ Ncon(ts, inds, swaps, ferm) ==
         ent |-> {e \in {<<k, CSum({asg \in good : key(asg) = k}, val)>> : k \in keys} : e[2] # CZ},
         dg |-> FALSE]
 
+(* --------------------------- factorisations (C04) --------------------------- *)
+(* STRUCTURE of svd / qr / eigh results for an operand in which every symmetry-allowed block is stored.  nl, nr = native axes of the  *)
+(* left / right group (in the order given by the caller).  The effective matrix has one sector per left charge c; the new leg carries  *)
+(* charge NewT(c) with dimension min(rows, cols) of that sector.                                                                       *)
+LabelsOfLeg(leg) == UNION {{<<p[1], i>> : i \in 1..p[2]} : p \in RangeOf(leg)}
+RECURSIVE IdxTuples(_, _)
+IdxTuples(a, ax) == IF ax = <<>> THEN {<<>>} ELSE {<<lb>> \o q : lb \in LabelsOfLeg(a.legs[Head(ax)]), q \in IdxTuples(a, Tail(ax))}
+GroupCharge(a, ax, q) == Add(Mod(a.sym), [k \in 1..Len(ax) |-> q[k][1]], [k \in 1..Len(ax) |-> a.s[ax[k]]], 1)
+MinI(x, y) == IF x < y THEN x ELSE y
+(* charge of the connecting leg (signature sg on the left factor) for left charge c; the left factor carries charge nL *)
+NewT(a, c, sg, nL) == Add(Mod(a.sym), <<nL, c>>, <<sg, -sg>>, 1)                     \* c + sg * t = nL  =>  t = sg * (nL - c)
+(* sectors of the effective matrix: left charges c that have a partner on the right (c + right charge = n); rows / cols counted on the legs *)
+NewLeg(a, nl, nr, sg, nL, square) ==
+    LET L == IdxTuples(a, nl)  R == IdxTuples(a, nr)
+        lc == [q \in L |-> GroupCharge(a, nl, q)]
+        rc == [r \in R |-> GroupCharge(a, nr, r)]
+        act == {c \in {lc[q] : q \in L} : \E r \in R : Plus(Mod(a.sym), c, rc[r]) = a.n}
+        rows(c) == Cardinality({q \in L : lc[q] = c})
+        cols(c) == Cardinality({r \in R : Plus(Mod(a.sym), c, rc[r]) = a.n})
+    IN SortSeq(SetToSeq({<<NewT(a, c, sg, nL), IF square THEN rows(c) ELSE MinI(rows(c), cols(c))>> : c \in act}), LAMBDA x, y : LexLess(x[1], y[1]))
+(* left factor: left legs of a (logical order la) + connecting leg nleg at logical position pos (1-based) *)
+LeftFactor(a, la, lb, sg, nL, pos, nleg) ==
+    LET nl == NatAxes(a, la)  np == LeavesBefore(Pick(a.grp, la), pos) + 1 IN
+    [sym |-> a.sym, s |-> InsAt(Pick(a.s, nl), np, sg), n |-> nL,
+     legs |-> InsAt(Pick(a.legs, nl), np, nleg), grp |-> InsAt(Pick(a.grp, la), pos, Leaf), dg |-> FALSE]
+RightFactor(a, la, lb, sg, nL, pos, nleg) ==
+    LET nr == NatAxes(a, lb)  np == LeavesBefore(Pick(a.grp, lb), pos) + 1
+        nR == Add(Mod(a.sym), <<a.n, nL>>, <<1, -1>>, 1) IN
+    [sym |-> a.sym, s |-> InsAt(Pick(a.s, nr), np, -sg), n |-> nR,
+     legs |-> InsAt(Pick(a.legs, nr), np, nleg), grp |-> InsAt(Pick(a.grp, lb), pos, Leaf), dg |-> FALSE]
+SpectrumLeg(a, la, lb, sg, nL, square) == NewLeg(a, NatAxes(a, la), NatAxes(a, lb), sg, nL, square)
+PreFactor(a, la, lb) == IsPerm(la \o lb, LRank(a)) /\ ~a.dg
+StructEq(o, r) == o.sym = r.sym /\ o.s = r.s /\ o.n = r.n /\ o.legs = r.legs /\ o.grp = r.grp /\ o.dg = r.dg
+WhyStruct(o, r) == IF o.s # r.s THEN <<"signature", o.s, "expected", r.s>> ELSE IF o.n # r.n THEN <<"charge", o.n, "expected", r.n>>
+                   ELSE IF o.grp # r.grp THEN <<"fusion trees", o.grp, "expected", r.grp>> ELSE <<"legs", o.legs, "expected", r.legs>>
+
 (* ------------------------- observational equality ---------------------- *)
 (* what an observation of a result must satisfy w.r.t. the reference r (legs of r are the maximal admissible sector sets) *)
 LegsWithin(obs, r) == \A k \in 1..NRank(r) : SecSet(obs.legs[k]) \subseteq SecSet(r.legs[k])
